@@ -73,6 +73,16 @@ def check_vector(P, ver, s, copies=False):
         c = dict(case, sort=sort, minimal=minimal)
         judge_single(P, ver, s, prefix, m, eff, sc, d, sort, minimal, c)
     judge_relations(P, ver, m, sc, res, case)
+    # the options given positionally (as the signature allows) mean the same as given by keyword -- asked twice,
+    # a deprecation path may behave differently the second time
+    P.ev("positional-options")
+    for rnd in (1, 2):
+        for (sort, minimal), d in res.items():
+            ok, d2 = obs.call(o.as_json, sort, minimal)
+            if not ok or not isinstance(d2, dict) or dict(d2) != dict(d) or (sort and list(d2) != list(d)):
+                P.violation("sort", "C11:v%s:as_json-options-given-positionally-differ-from-keywords" % ver, dict(case, sort=sort, minimal=minimal),
+                            call="as_json(%r, %r), call %d" % (sort, minimal, rnd), positional=repr(d2)[:300])
+                break
     if copies or P.evaluations % 4 == 0:
         judge_copies(P, ver, o, res, case)
 
